@@ -61,7 +61,7 @@ INVALID = {"C02": "rand_argmax with np.isclose: FAILS skactiveml/pool/tests/test
 def main():
     home = os.path.dirname(os.path.dirname(os.path.abspath(__file__)))
     for sid, m in SEEDS.items():
-        src = "/tmp/seed/%s_out" % sid
+        src = ("/tmp/seed3/%s_out" if sid.endswith("c") else "/tmp/seed/%s_out") % sid
         dst = os.path.join(home, "seeded", sid)
         os.makedirs(dst, exist_ok=True)
         for f in ("patch.diff", "demo.py", "notes.md"):
